@@ -131,6 +131,10 @@ def main():
         lines.append(f"VIOLATION property={pid} replay={path} no-failing-input-found")
 
     wall = time.time() - t0
+    def small(v, limit=1500):
+        t = json.dumps(v, default=str, ensure_ascii=False)
+        return v if len(t) <= limit else {"truncated": t[:limit] + " ...", "chars": len(t)}
+    stats.samples = [{k: small(v) for k, v in smp.items()} for smp in stats.samples]
     coverage = {
         "obligations": obligations, "discharged": discharged,
         "checker_cmd": f"make -f Makefile.coq theories/Properties/{pid}.vo && coqc -Q theories PV -Q gen PVGen theories/Properties/{pid}.v",
